@@ -22,6 +22,7 @@ def _rng_state():
 
 
 class StochHooks(Hooks):
+    prefix = 'C18'
     def __init__(self):
         self.rng0 = None
         self.state0 = None
